@@ -208,12 +208,15 @@ def markEquiv (m1 m2 : Mark) : Bool := m1.msg = m2.msg && m1.tys = m2.tys
 def Err.isValueKind : Err → Bool
   | .leaf _ .deadline => true
   | .leaf _ (.errno ..) => true
+  | .leaf _ .testErr => true
   | _ => false
 
 /-- Go `c == reference` on two error interface values. -/
 def goEq (c r : Err) : Bool :=
   match c, r with
   | .leaf _ .deadline, .leaf _ .deadline => true
+  -- *errorspb.TestError is a pointer to a zero-size struct: all such pointers are equal
+  | .leaf _ .testErr, .leaf _ .testErr => true
   | .leaf _ (.errno n ..), .leaf _ (.errno m ..) => n = m
   | _, _ => !c.isValueKind && !r.isValueKind && c.id = r.id
 
